@@ -410,13 +410,13 @@ def dispatch(E, c, tc, args):
             return VRef(r.cell, r.path + (("field", n),))
     if tc and tc[1] in ("Deref", "DerefMut") and isinstance(deref(E, args[0]), VSeq):
         return ref_chain(E, args[0])
-    if re.search(r"<impl \[.*\]>::(first|last)$", c):
+    if re.search(r"<impl \[.*\]>::(first|last|first_mut|last_mut)$", c):
         r = ref_chain(E, args[0])
         d = E.read_ref(r)
         if isinstance(d, VSeq):
             if not d.items:
                 return NONE()
-            k = 0 if c.endswith("first") else len(d.items) - 1
+            k = 0 if re.search(r"first(_mut)?$", c) else len(d.items) - 1
             return some(VRef(r.cell, r.path + (("field", k),)))
     if re.search(r"<impl \[.*\]>::get$", c) or re.match(r"^std::vec::Vec::<.*>::get$", c, re.S):
         r = ref_chain(E, args[0])
